@@ -42,12 +42,12 @@ NPROC = min(16, os.cpu_count() or 4)
 # quick tier: entries every traversal / decoder hangs on - all their retype faults are applied, not a sample
 IMPORTANT_KEYS = {"DescendantFonts", "Kids", "Contents", "Resources", "Font", "Encoding", "ToUnicode", "W", "Widths",
                   "Length", "Filter", "DecodeParms", "Root", "Pages", "Prev", "XRefStm", "Index", "Encrypt", "ID",
-                  "N", "First"}
-ELEMENT_PARENTS = {"DW2", "W2", "W", "Widths", "FontMatrix", "FontBBox", "BBox", "Matrix", "MediaBox"}
+                  "N", "First", "Length1", "Length2", "Length3"}
+ELEMENT_PARENTS = {"DW2", "W2", "W", "Widths"}
 REF_PARENTS = {"XObject", "Font", "Kids", "Contents", "DescendantFonts"}
 IMPORTANT_SITES_PER_ROLE = 1
 # quick tier: faults sampled per (seed, class, kind) stratum
-QUICK_PER_STRATUM = {"value": 3, "payload": 8, "file": 25, "xrefent": 2, "multi": 2}
+QUICK_PER_STRATUM = {"value": 2, "payload": 6, "file": 15, "xrefent": 2, "multi": 2}
 
 
 # ------------------------------------------------------------------------------------------------ Faults.tla
@@ -146,6 +146,9 @@ def sample_faults(faults, seed, descs):
             # entries of dictionaries written inside content streams (inline images, property lists): few, all applied
             out.append((s, fd))
             continue
+        if fd["kind"] == "delete" and (s, fd["site"]) in cyc_sites:
+            out.append((s, fd))            # every important entry removed
+            continue
         if fd["kind"] == "empty" and (s, fd["site"]) in cyc_sites:
             out.append((s, fd))            # the empty array / dictionary / string / name at every important entry
             continue
@@ -165,6 +168,9 @@ def sample_faults(faults, seed, descs):
             # every payload cut just before its end and at three quarters: nearly everything still decodes (an object
             # stream keeps most of its members), which is where caches keyed on "complete" data stop working
             out.append((s, fd))
+            continue
+        if fd["kind"] == "ent_in_cycle2":
+            out.append((s, fd))        # containment cycles between object streams: few entries, all applied
             continue
         if fd["kind"].startswith("off_"):
             # file positions (startxref, Prev, XRefStm): few sites, every fault and both offset styles in every run
